@@ -44,4 +44,22 @@ BodiesM == { B(c, t, p, a, n) : c \in {"add", "update", "remove"}, t \in {2, 4},
                   [B("add", 4, 0, "a", 0) EXCEPT !.self = "bad"],
                   [B("add", 4, 2, "b", 0) EXCEPT !.self = "bad"],
                   B("remove", 3, 0, "b", 0), B("remove", 1, 0, "a", 0), B("remove", 1, 0, "a", 1) }
+
+\* second graph configuration (with P1120: node 3 heavy, node 4 a member without power)
+BodiesG == { B("update", 4, 2, "a", 0), B("update", 3, 1, "b", 0), B("remove", 4, 0, "b", 0), B("add", 4, 0, "a", 0),
+             B("bogus", 2, 2, "a", 0), [B("update", 2, 2, "b", 0) EXCEPT !.ct = "bad"] }
+ListsG  == { <<E("ok",1), E("ok",2), E("ok",3)>>,
+             <<E("ok",3), E("ok",1)>>,                       \* 3 of 4
+             <<E("ok",1), E("ok",2), E("ok",4)>>,            \* 2 of 4 plus a powerless member
+             <<E("ok",3), E("ok",3)>>,                       \* the heavy validator twice
+             <<E("ok",3), E("garbage",1), E("wrong",2)>> }
+
+\* a smaller body set for random simulation of longer behaviours
+BodiesS == { B("update", 2, 2, "a", 0), B("update", 2, 2, "a", 1), B("update", 2, 0, "b", 0), B("update", 2, 1, "b", 1),
+             B("add", 4, 0, "a", 0), B("add", 4, 2, "a", 1), B("add", 4, 0, "b", 0),
+             [B("add", 4, 0, "b", 1) EXCEPT !.self = "bad"],
+             B("update", 4, 2, "a", 1), B("update", 4, 1, "b", 1), B("update", 4, 2, "a", 2),
+             B("remove", 3, 0, "b", 0), B("remove", 3, 0, "b", 1), B("remove", 3, 0, "a", 1), B("remove", 4, 0, "a", 2),
+             B("bogus", 2, 2, "a", 0), [B("update", 2, 2, "b", 0) EXCEPT !.ct = "bad"] }
+
 =================================================================================
